@@ -7,6 +7,7 @@ import (
 	"strconv"
 	"strings"
 	"testing"
+	"unicode/utf8"
 
 	"github.com/ohler55/ojg"
 	"github.com/ohler55/ojg/jp"
@@ -31,6 +32,9 @@ type Case struct {
 	// Reverse: object members are written in descending key order (the document order is then
 	// not the order of the keys)
 	Reverse bool `json:"reverse,omitempty"`
+	// Sen: the sen entry points get the document in SEN notation (bare tokens, single quoted
+	// strings, no commas) instead of JSON
+	Sen bool `json:"sen,omitempty"`
 }
 
 func TestMain(m *testing.M) {
@@ -152,6 +156,78 @@ func writeDoc(v any, indent int, reverse bool) string {
 		}
 	}
 	w(v, 0)
+	return sb.String()
+}
+
+// writeSEN writes the tree in SEN notation as sen.md describes it: tokens ([A-Za-z_^~.] then
+// also digits and '-') bare, other strings single quoted when they contain neither a single
+// quote, a backslash nor a control character (a double quote inside needs no escape then) and
+// JSON quoted otherwise; members and elements separated by blanks; keys in ascending or
+// descending order like writeDoc.
+func writeSEN(v any, reverse bool) string {
+	var sb strings.Builder
+	str := func(s string) {
+		bare := len(s) > 0 && s != "true" && s != "false" && s != "null"
+		plain := utf8.ValidString(s)
+		for i := 0; i < len(s); i++ {
+			b := s[i]
+			start := b == '_' || b == '^' || b == '~' || b == '.' || ('a' <= b && b <= 'z') || ('A' <= b && b <= 'Z')
+			if !(start || (i > 0 && (('0' <= b && b <= '9') || b == '-'))) {
+				bare = false
+			}
+			if b == 39 || b == 92 || b < 0x20 || b == 0x7f {
+				plain = false
+			}
+		}
+		switch {
+		case bare:
+			sb.WriteString(s)
+		case plain:
+			sb.WriteByte(39)
+			sb.WriteString(s)
+			sb.WriteByte(39)
+		default:
+			sb.WriteString(oj.JSON(s))
+		}
+	}
+	var w func(v any)
+	w = func(v any) {
+		switch tv := v.(type) {
+		case map[string]any:
+			keys := make([]string, 0, len(tv))
+			for k := range tv {
+				keys = append(keys, k)
+			}
+			sort.Strings(keys)
+			if reverse {
+				sort.Sort(sort.Reverse(sort.StringSlice(keys)))
+			}
+			sb.WriteByte('{')
+			for i, k := range keys {
+				if i > 0 {
+					sb.WriteByte(' ')
+				}
+				str(k)
+				sb.WriteString(": ")
+				w(tv[k])
+			}
+			sb.WriteByte('}')
+		case []any:
+			sb.WriteByte('[')
+			for i, e := range tv {
+				if i > 0 {
+					sb.WriteByte(' ')
+				}
+				w(e)
+			}
+			sb.WriteByte(']')
+		case string:
+			str(tv)
+		default:
+			sb.WriteString(oj.JSON(v))
+		}
+	}
+	w(v)
 	return sb.String()
 }
 
@@ -341,6 +417,11 @@ func Run(cs Case, c *vrt.Ctx) {
 	if cs.Reverse {
 		c.Class("keys-descending")
 	}
+	stext := text
+	if cs.Sen {
+		stext = writeSEN(doc, cs.Reverse)
+		c.Class("sen-notation")
+	}
 	var targets []jp.Expr
 	var all []jpx.Loc
 	feats := map[string]bool{}
@@ -464,7 +545,11 @@ func Run(cs Case, c *vrt.Ctx) {
 		{"oj.Match", func(cb func(jp.Expr, any)) error { return oj.Match([]byte(text), cb, targets...) }},
 		{"oj.MatchString", func(cb func(jp.Expr, any)) error { return oj.MatchString(text, cb, targets...) }},
 		{"oj.MatchLoad", func(cb func(jp.Expr, any)) error { return oj.MatchLoad(cs.Chunk.Reader([]byte(text)), cb, targets...) }},
-		{"sen.Match", func(cb func(jp.Expr, any)) error { return sen.Match([]byte(text), cb, targets...) }},
+		{"sen.Match", func(cb func(jp.Expr, any)) error { return sen.Match([]byte(stext), cb, targets...) }},
+		{"sen.MatchString", func(cb func(jp.Expr, any)) error { return sen.MatchString(stext, cb, targets...) }},
+		{"sen.MatchLoad", func(cb func(jp.Expr, any)) error {
+			return sen.MatchLoad(gx.Chunking{Sizes: []int{1 + len(stext)%5}}.Reader([]byte(stext)), cb, targets...)
+		}},
 	} {
 		var got []hit
 		var err error
@@ -583,6 +668,7 @@ func drawCase(t *rapid.T) Case {
 		cs.Targets = append(cs.Targets, drawTarget(t))
 	}
 	cs.Reverse = rapid.IntRange(0, 3).Draw(t, "reverse") == 0
+	cs.Sen = rapid.IntRange(0, 1).Draw(t, "sen") == 0
 	text := writeDoc(doc, cs.Indent, cs.Reverse)
 	var cuts []int
 	for i := 1; i < len(text); i++ {
